@@ -3,6 +3,7 @@
 use serde_json::Value;
 
 mod c04;
+mod c09;
 mod c13;
 mod c18;
 mod util;
@@ -17,6 +18,7 @@ fn main() {
     let cases = input["cases"].as_array().expect("cases array");
     let observed: Vec<Value> = match args[1].as_str() {
         "c04" => cases.iter().map(c04::run).collect(),
+        "c09" => cases.iter().map(c09::run).collect(),
         "c13" => cases.iter().map(c13::run).collect(),
         "c18" => cases.iter().map(c18::run).collect(),
         other => {
